@@ -225,6 +225,14 @@ def _rays(m, rng, n):
             o = c + 3.0 * ext
             d = rng.random(3) + 0.1
         out.append((o, d))
+    # origins hugging the surface (0.01 off a face, inside and outside): candidate triangles
+    # lie partly behind the origin
+    fi = rng.integers(0, len(m.faces), size=max(6, n // 3))
+    for k, f in enumerate(fi):
+        side = 1.0 if k % 2 else -1.0
+        o = m.triangles_center[f] + side * 0.01 * float(m.scale) * m.face_normals[f]
+        d = rng.normal(size=3)
+        out.append((o, d))
     return out
 
 
@@ -234,8 +242,9 @@ def _oracle_hits(tri, o, d, margin):
     t, u, v = moller_trumbore(tri, o, d)
     w = 1.0 - u - v
     dl = rnp.linalg.norm(d)
-    inside = (u > margin) & (v > margin) & (w > margin) & (t * dl > margin)
-    near = ~rnp.isnan(t) & (u > -margin) & (v > -margin) & (w > -margin) & (t * dl > -margin) & ~inside
+    bm = 0.01  # barycentric margin: a hundredth of the triangle away from its edges
+    inside = (u > bm) & (v > bm) & (w > bm) & (t * dl > margin)
+    near = ~rnp.isnan(t) & (u > -bm) & (v > -bm) & (w > -bm) & (t * dl > -margin) & ~inside
     # grazing: the ray is nearly parallel to a triangle it is close to
     n = rnp.cross(tri[:, 1] - tri[:, 0], tri[:, 2] - tri[:, 0])
     n /= rnp.linalg.norm(n, axis=1).reshape(-1, 1)
@@ -294,6 +303,36 @@ def rays_vs_oracle(tier, seed):
                         fail("%s:intersects_any-wrong" % ename, mname, origin=o.tolist(), direction=d.tolist())
                 except Exception as ex:  # noqa: BLE001
                     fail("%s:raised %s" % (ename, type(ex).__name__), mname, detail=str(ex)[:100])
+        # ---- batches: the answer for a ray must not depend on the other rays of the call
+        rays = [(o, d) for o, d in _rays(m, rng, n_rays) if not _oracle_hits(tri, o, d, margin=1e-4 * scale)[1]]
+        if rays:
+            # several view points aiming at the same surface targets, and a duplicated ray
+            tgt = [o + d * (min(t for _, t in _oracle_hits(tri, o, d, 1e-4 * scale)[0]) / rnp.linalg.norm(d)) for o, d in rays if _oracle_hits(tri, o, d, 1e-4 * scale)[0]][:4]
+            extra = []
+            for t_ in tgt:
+                for _ in range(3):
+                    o2 = t_ + rng.normal(size=3) * float(m.scale) * 2.0
+                    extra.append((o2, t_ - o2))
+            batch = rays[:20] + rays[:3] + [r_ for r_ in extra if not _oracle_hits(tri, r_[0], r_[1], 1e-4 * scale)[1]]
+            O = rnp.array([o for o, _ in batch])
+            D = rnp.array([d for _, d in batch])
+            for ename, eng in engines:
+                cases += 1
+                try:
+                    loc, iray, itri = eng.intersects_location(O, D, multiple_hits=True)
+                    first = eng.intersects_first(O, D)
+                    for k, (o, d) in enumerate(batch):
+                        want, _ = _oracle_hits(tri, o, d, 1e-4 * scale)
+                        got = sorted(int(t_) for t_, r_ in zip(itri, iray) if r_ == k)
+                        if got != sorted(i for i, _ in want):
+                            fail("%s:batch:hit-set-of-a-ray-depends-on-the-other-rays" % ename, mname, ray=k, got=got, want=sorted(i for i, _ in want))
+                            break
+                        wfirst = min(want, key=lambda it: it[1])[0] if want else -1
+                        if int(first[k]) != wfirst:
+                            fail("%s:batch:first-hit-is-not-the-nearest" % ename, mname, ray=k, got=int(first[k]), want=wfirst)
+                            break
+                except Exception as ex:  # noqa: BLE001
+                    fail("%s:batch:raised %s" % (ename, type(ex).__name__), mname, detail=str(ex)[:100])
     fails = sorted(cells.values(), key=lambda c: c["cell"])
     r = common.result(cases, cases, fails, "6 meshes x %d rays x engines; rays within 1e-4*scale of an edge / vertex / the origin or grazing are skipped (general position)" % n_rays, exhaustive=False)
     r["failures"] = fails
